@@ -1065,7 +1065,72 @@ func (e *Engine) loopCheck(fi *fnInfo, st *State, from, hdr *ssa.BasicBlock) {
 		e.check(st, "R-PROGRESS", key+" (look-ahead index)", pos, true, "")
 		return
 	}
+	if e.headerLeaves(fi, st, hdr) {
+		// the loop condition is already false in this state (`for closing < 0 { … closing = 3 … }`): this path goes
+		// round the loop once more only to leave it — it is the exit path, not an iteration
+		e.check(st, "R-PROGRESS", key, pos, true, "")
+		return
+	}
 	e.check(st, "R-PROGRESS", key, pos, false, fmt.Sprintf("a path around this loop does not advance the cursor (net displacement >= %d) and the loop is not a bounded counter/range loop: on some input the scan does not terminate", d))
+}
+
+// headerLeaves: in state st (at the back edge, header phis assigned) the header's own test is decided and its taken
+// branch leaves the loop.
+func (e *Engine) headerLeaves(fi *fnInfo, st *State, hdr *ssa.BasicBlock) bool {
+	iff, ok := lastInstr(hdr).(*ssa.If)
+	if !ok {
+		return false
+	}
+	var cv AbsVal
+	switch c := iff.Cond.(type) {
+	case *ssa.BinOp:
+		if c.Block() != hdr {
+			return false
+		}
+		// operands must be available before the header body runs: phis of the header, constants, values from outside
+		for _, op := range []ssa.Value{c.X, c.Y} {
+			if in, isIn := op.(ssa.Instruction); isIn && in.Block() == hdr {
+				if _, isPhi := op.(*ssa.Phi); !isPhi {
+					return false
+				}
+			}
+		}
+		cv = e.binop(st, c)
+	case *ssa.Phi:
+		if c.Block() != hdr {
+			return false
+		}
+		cv = e.eval(st, c)
+	default:
+		return false
+	}
+	t, known := cv.constInt()
+	if !known || cv.k != vInt {
+		return false
+	}
+	next := hdr.Succs[0]
+	if t == 0 {
+		next = hdr.Succs[1]
+	}
+	// next is outside the loop iff the header cannot be reached from it again
+	seen := map[*ssa.BasicBlock]bool{}
+	var reach func(b *ssa.BasicBlock) bool
+	reach = func(b *ssa.BasicBlock) bool {
+		if b == hdr {
+			return true
+		}
+		if seen[b] {
+			return false
+		}
+		seen[b] = true
+		for _, s := range b.Succs {
+			if reach(s) {
+				return true
+			}
+		}
+		return false
+	}
+	return !reach(next)
 }
 
 func loopOrdinal(fi *fnInfo, hdr *ssa.BasicBlock) int {
@@ -1502,6 +1567,12 @@ func (e *Engine) compute(fi *fnInfo, st *State, in ssa.Value) AbsVal {
 	case *ssa.IndexAddr:
 		base := e.eval(st, x.X)
 		idx := e.eval(st, x.Index)
+		if g, isG := x.X.(*ssa.Global); isG && base.k != vLit {
+			// a row of a small constant table addressed in place (decl := &declarations[i])
+			if l := e.rowTable(g); l != nil {
+				base = AbsVal{k: vLit, lit: l, field: -1}
+			}
+		}
 		if base.k == vArr {
 			if c, ok := idx.constInt(); ok && int(c) >= 0 && base.alo+int(c) < base.ahi {
 				return AbsVal{k: kElemAddr, arr: base.arr, alo: base.alo + int(c)}
@@ -1557,7 +1628,16 @@ func (e *Engine) compute(fi *fnInfo, st *State, in ssa.Value) AbsVal {
 			return AbsVal{k: vLit, lit: base.lit, field: x.Field}
 		}
 		return top
-	case *ssa.MakeInterface, *ssa.MakeSlice, *ssa.MakeMap, *ssa.TypeAssert, *ssa.ChangeInterface, *ssa.Range, *ssa.Next, *ssa.SliceToArrayPointer, *ssa.MakeChan, *ssa.Select:
+	case *ssa.MakeInterface:
+		// an error value built by NewError/NewErrorLexer and handed on as `error` (return ErrorGrammar, nil, parse.NewErrorLexer(…)):
+		// still that non-nil value with its message
+		if isErrorType(x.Type()) {
+			if iv := e.eval(st, x.X); iv.emsg != "" {
+				return iv
+			}
+		}
+		return top
+	case *ssa.MakeSlice, *ssa.MakeMap, *ssa.TypeAssert, *ssa.ChangeInterface, *ssa.Range, *ssa.Next, *ssa.SliceToArrayPointer, *ssa.MakeChan, *ssa.Select:
 		return top
 	}
 	return top
@@ -1586,6 +1666,9 @@ func (e *Engine) load(st *State, x *ssa.UnOp) AbsVal {
 				return e.litValue(a.lit.Elems[a.field], x.Type())
 			}
 			return top
+		}
+		if a.lit.Const != nil && !a.lit.IsBytes {
+			return e.litValue(a.lit, x.Type()) // an element of a list of constants
 		}
 		return a // the row (or table) itself, loaded through its address
 	}
